@@ -2,4 +2,4 @@ INIT Init
 NEXT Next
 INVARIANT Emit
 CHECK_DEADLOCK FALSE
-CONSTANTS N = 3000  Mode = "prosonly"
+CONSTANTS N = 6000  Mode = "prosonly"
